@@ -188,7 +188,11 @@ func metaChild(r *Run, pid string, env []string, pkgs []c12Pkg, test string, rep
 			for _, e := range pk.Env {
 				if (r.Thorough() || os.Getenv("VERIF_SEARCH") != "") && strings.HasPrefix(e, "VERIF_SCALE=") {
 					f, _ := strconv.ParseFloat(strings.TrimPrefix(e, "VERIF_SCALE="), 64)
-					e = fmt.Sprintf("VERIF_SCALE=%g", f*6)
+					k := 6.0
+					if !r.Thorough() { // search branch of a quick check: wider than the quick run, still minutes not hours
+						k = 3
+					}
+					e = fmt.Sprintf("VERIF_SCALE=%g", f*k)
 				}
 				extra = append(extra, e)
 			}
